@@ -10,6 +10,7 @@ import KrillModel.Ca.LemmasShrink
 import KrillModel.Ca.LemmasTidyReach
 import KrillModel.Ca.Exchange
 import KrillModel.Ca.ExchangeLemmas
+import KrillModel.Ca.ExchangePinned
 import KrillModel.Ca.ExchangeRollConv
 namespace KM.Props.C02
 open KM KM.CaK KM.Res KM.AMap
@@ -385,10 +386,16 @@ unrestricted `Sys`-level statement of the last sentence.  The exchange between t
 aggregates is `Ca/Exchange.lean`; on it `exchange_idempotent` (below) is proved for every pair,
 and convergence is proved for concrete pairs covering each kind of entitlement change
 (`exchange_converges_instances`).  For an ARBITRARY reachable pair the statement is FALSE as it
-stands: `sync_stuck_after_parent_side_revocation`, `sync_stuck_with_request_limit`,
-`sync_alternates_with_non_injective_mapping`, `sync_misses_parent_side_reissue` (below) are
-reachable pairs on which `Pair.sync` never converges.  Proved for EVERY reachable pair that
-satisfies a decidable coupling (each conjunct excludes one of those pairs):
+stands: `sync_stuck_with_request_for_lost_class` (H, replayed on the real code: F-C02-4, open),
+`sync_misses_parent_side_reissue` (G) and `names_clash_when_class_is_added_after_mapping` (below)
+are reachable pairs on which `Pair.sync` never converges / whose names clash.  Two more were
+defects of the code, replayed and repaired (the models follow the fixed code, the old behaviour
+is kept as `pinned_sync_stuck_after_parent_side_revocation` – F-C02-2, fix 7be8c4c6 – and
+`pinned_sync_alternates_with_non_injective_mapping` – F-C02-3, fix 02d8de59); one was an error of
+the model (`sync_converges_with_request_limit`).  Proved for EVERY reachable pair that
+satisfies a decidable coupling (each conjunct excludes one of those pairs) and whose open
+certificate requests the parent can answer (`pendingAnswerable`, needed only by the theorems
+that start with requests to send):
 `exchange_converges_quiet` (2 syncs when there is nothing to send) and
 `exchange_converges_partial` (3 syncs) for pairs without a key roll of the child in progress
 (`Pair.coupled`), `exchange_converges` (sync, sync, sync, activate, sync) for pairs with a key
@@ -523,8 +530,13 @@ example :
 `Pair.coupled` (`Ca/ExchangeLemmas.lean`) is the conjunction of five decidable predicates on the
 pair: `childHasRepo`, `mappingInjective`, `noRequestLimits`, `classNamesDistinct`, `certsOnFile`.
 The theorems below hold for EVERY pair of reachable aggregates that satisfies it – any number of
-classes, children, certificates, any history on either side.  The counter-models after them show
-that the hypotheses cannot be dropped. -/
+classes, children, certificates, any history on either side.  The theorems that may start with
+requests to send (`exchange_keeps_coupling`, `exchange_converges_partial`, `exchange_converges`)
+need in addition `pendingAnswerable`: the parent can answer every certificate request the child has
+open (a krill parent refuses the others with an error and the child keeps them for ever –
+`sync_stuck_with_request_for_lost_class`); after a sync that fetched entitlements it holds by
+itself (`PostE.answerable`).  The counter-models after them show that the hypotheses cannot be
+dropped. -/
 
 /-- The coupling is an invariant of the exchange: every sync keeps it (and keeps both sides
 reachable), provided the sync that fetches entitlements gets a new key for each class it
@@ -532,9 +544,10 @@ creates. -/
 theorem exchange_keeps_coupling (x : Pair) (now na : Int) (f : List KeyId)
     (hp : Reachable x.parent) (hc : Reachable x.child)
     (hcoupled : x.coupled = true) (hnoroll : x.noRollInProgress = true)
+    (hansw : x.pendingAnswerable = true)
     (hf : x.child.ca.hasPendingRequests x.ph = false → x.newClasses na ≤ f.length) :
     Coupled (x.sync now na f) :=
-  sync_coupled (coupled_of_bool hp hc hcoupled hnoroll) now na f hf
+  sync_coupled (coupled_of_bool hp hc hcoupled hnoroll) now na f hf (fun _ => answerable_of_bool hansw)
 
 /-- `sync_converges` for the pair, from nothing-to-send: for every coupled pair of reachable
 aggregates in which the child has no open request and no key roll in progress – i.e. after any
@@ -566,11 +579,12 @@ the one sync that fetches the entitlements. -/
 theorem exchange_converges_partial (x : Pair) (now na : Int) (f1 f2 f3 : List KeyId)
     (hp : Reachable x.parent) (hc : Reachable x.child)
     (hcoupled : x.coupled = true) (hnoroll : x.noRollInProgress = true)
+    (hansw : x.pendingAnswerable = true)
     (hf : if x.child.ca.hasPendingRequests x.ph then x.parent.ca.classes.length ≤ f2.length
       else x.newClasses na ≤ f1.length) :
     (x.syncs now na [f1, f2, f3]).converged na = true ∧
     ∀ f, (x.syncs now na [f1, f2, f3]).sync now na f = x.syncs now na [f1, f2, f3] := by
-  have h := converges_any (coupled_of_bool hp hc hcoupled hnoroll) now na f1 f2 f3 hf
+  have h := converges_any (coupled_of_bool hp hc hcoupled hnoroll) (answerable_of_bool hansw) now na f1 f2 f3 hf
   exact ⟨h.converged, h.sync_eq⟩
 
 /-- The coupling is established by a child that has a repository and no class yet (first
@@ -624,8 +638,8 @@ theorem xStart_coupled : Coupled xStart :=
   coupled_of_bool (reachable_run .init _) (reachable_run .init _) (by decide) (by decide)
 
 theorem xConv_coupled : Coupled xConv :=
-  sync_coupled (sync_coupled xStart_coupled 10 900 [20] (fun _ => by decide)) 10 900 [] (fun h => by
-    revert h; decide)
+  sync_coupled (sync_coupled xStart_coupled 10 900 [20] (fun _ => by decide) (fun h => absurd h (by decide)))
+    10 900 [] (fun h => by revert h; decide) (fun _ => answerable_of_bool (by decide))
 
 theorem xTwo_reachable : Reachable xTwo.parent ∧ Reachable xTwo.child :=
   ⟨reachable_run .init _, reachable_run .init _⟩
@@ -652,6 +666,7 @@ the first sync of `xStart` (the new class has its request open). -/
 example :
     let x := xStart.sync 10 900 [20]
     x.coupled = true ∧ x.noRollInProgress = true ∧ x.child.ca.hasPendingRequests x.ph = true ∧
+    x.pendingAnswerable = true ∧
     x.parent.ca.classes.length ≤ ([] : List KeyId).length + 1 := by decide
 
 /-- The convergence statements of `exchange_converges_instances` (first delegation, shrink to a
@@ -671,7 +686,7 @@ theorem exchange_converges_instances_from_general :
   have hnothingP : Reachable xNothing.parent :=
     Reachable.step (.updateRcvdCert 0 4 { res := [3, 4], na := 1000 } 500 []) hconvP
   have hnothing : Coupled xNothing := coupled_of_bool hnothingP hconvC (by decide) (by decide)
-  have hy := sync_coupled hnothing 10 900 [] (fun _ => by decide)
+  have hy := sync_coupled hnothing 10 900 [] (fun _ => by decide) (fun h => absurd h (by decide))
   have hregainP : Reachable xRegain.parent :=
     Reachable.step (.updateRcvdCert 0 4 { res := [1, 2, 3, 4], na := 1000 } 500 []) hy.inv.rp
   have hmappedP : Reachable xMapped.parent :=
@@ -702,13 +717,14 @@ sync changes nothing on either side.  New keys (pairwise different, not yet in u
 by the one sync that fetches the entitlements. -/
 theorem exchange_converges (x : Pair) (now na na' : Int) (f1 f2 f3 f4 : List KeyId)
     (hp : Reachable x.parent) (hc : Reachable x.child) (hcoupled : x.coupledRoll = true)
+    (hansw : x.pendingAnswerable = true)
     (hf : if x.child.ca.hasPendingRequests x.ph then x.parent.ca.classes.length ≤ f2.length ∧ x.freshOk f2 = true
       else x.newClasses na ≤ f1.length ∧ x.freshOk f1 = true) :
     (((x.syncs now na [f1, f2, f3]).activate na').sync now na f4).converged na = true ∧
     ∀ f, (((x.syncs now na [f1, f2, f3]).activate na').sync now na f4).sync now na f =
       ((x.syncs now na [f1, f2, f3]).activate na').sync now na f4 := by
   obtain ⟨hc2, hoth⟩ := coupled2_of_bool hp hc hcoupled
-  have h := converges_roll hc2 hoth now na na' f1 f2 f3 f4 (by
+  have h := converges_roll hc2 hoth (answerable_of_bool hansw) now na na' f1 f2 f3 f4 (by
     split
     · rename_i hpend
       simp only [hpend, if_true] at hf
@@ -728,6 +744,7 @@ example :
     (r1.child.ca.classes.map fun q => q.2.keys.variant) = [.rollNew] ∧
     (r2.child.ca.classes.map fun q => q.2.keys.variant) = [.rollOld] ∧
     xRoll.coupledRoll = true ∧ r1.coupledRoll = true ∧ r2.coupledRoll = true ∧
+    xRoll.pendingAnswerable = true ∧ r1.pendingAnswerable = true ∧ r2.pendingAnswerable = true ∧
     xRoll.child.ca.hasPendingRequests xRoll.ph = true ∧
     xRoll.parent.ca.classes.length ≤ [40].length ∧ xRoll.freshOk [40] = true ∧
     xStart.coupledRoll = true ∧ xShrunk.coupledRoll = true ∧ xNothing.coupledRoll = true ∧
@@ -736,7 +753,7 @@ example :
 theorem exchange_converges_roll_instance :
     (((xRoll.syncs 10 900 [[], [40], []]).activate 900).sync 10 900 []).converged 900 = true :=
   (exchange_converges xRoll 10 900 900 [] [40] [] [] xConv_coupled.inv.rp
-    (Reachable.step (.keyrollInit [(0, 30)]) xConv_coupled.inv.rc) (by decide) (by decide)).1
+    (Reachable.step (.keyrollInit [(0, 30)]) xConv_coupled.inv.rc) (by decide) (by decide) (by decide)).1
 
 /-! ### The hypotheses are necessary: reachable pairs on which `Pair.sync` never converges
 
@@ -758,38 +775,51 @@ example : Sys.run {} pConvOps = xConv.parent ∧ Sys.run {} cConvOps = xConv.chi
 
 /-- (F) The child is in `RollOld` (new key 30 activated, revocation of key 20 still to be sent);
 meanwhile the parent lost the child's resources and its `shrink_overclaiming` removed – revoked –
-the certificates of keys 20 and 30. -/
+the certificates of keys 20 and 30.  (Neither history contains a command the fixes changed: the
+states are the same on the pinned and on the current tree.) -/
 def xRevoked : Pair :=
   ⟨Sys.run {} (pConvOps ++ [.childCertify 7 0 30 none 900,
       .updateRcvdCert 0 4 { res := [3, 4], na := 1000 } 500 []]),
    Sys.run {} (cConvOps ++ [.keyrollInit [(0, 30)], .updateRcvdCert 0 30 { res := [1, 2], na := 900 } 900 [],
       .keyrollActivate 900]), 7, 9⟩
 
-/-- Every sync sends the revocation request for key 20; the parent refuses it
-(`KeyUseNoIssuedCert`: the key is already marked revoked, the class still exists), the child
-stays in `RollOld` with its open request and therefore never fetches entitlements: the pair is
-a fixed point of `Pair.sync` that is not converged – the parent lists nothing for the child, the
-child keeps class 0 with certificates for `{1,2}` for ever.  What `noParentSideRevocation` (in
-`Pair.coupledRoll`; `noRollInProgress` in the theorems without a roll) excludes. -/
-theorem sync_stuck_after_parent_side_revocation :
+/-- Counter-model of the PINNED tree (before fix 7be8c4c6; F-C02-2, same refusal as F-C01-3 and
+F-C08-6; replayed on that tree: corpus/system/c02-roll-old-revoked-by-parent.ops shows the fixed
+behaviour, seeded/ keeps the revert).  Every sync sent the revocation request for key 20; the
+parent refused it (`KeyUseNoIssuedCert`: the key is already marked revoked, the class still
+exists), the child stayed in `RollOld` with its open request and therefore never fetched
+entitlements: the pair was a fixed point of the exchange that is not converged – the parent lists
+nothing for the child, the child kept class 0 with certificates for `{1,2}` for ever. -/
+theorem pinned_sync_stuck_after_parent_side_revocation :
     Reachable xRevoked.parent ∧ Reachable xRevoked.child ∧ xRevoked.coupled = true ∧
     xRevoked.noRollInProgress = false ∧ xRevoked.noParentSideRevocation = false ∧
     (xRevoked.keysWellFormed && xRevoked.keysDistinct && xRevoked.noSuspendedCerts &&
       xRevoked.othersNotActivating && xRevoked.stayingCertsOnFile) = true ∧
-    xRevoked.parent.exec (.childRevokeKey 7 0 20) = .refused .noIssuedCert ∧
+    xRevoked.parent.pinnedExec (.childRevokeKey 7 0 20) = .refused .noIssuedCert ∧
     xRevoked.parent.ca.entitlementsFor 7 900 = [] ∧
     (xRevoked.child.ca.classes.map fun q => q.2.keys.variant) = [.rollOld] ∧
-    ∀ fs, (xRevoked.syncs 10 900 fs).converged 900 = false := by
+    ∀ fs, (xRevoked.pinnedSyncs 10 900 fs).converged 900 = false := by
   refine ⟨reachable_run .init _, reachable_run .init _, by decide, by decide, by decide, by decide, by decide,
     by decide, by decide, ?_⟩
-  have hfix : ∀ f, xRevoked.sync 10 900 f = xRevoked := by
+  have hfix : ∀ f, xRevoked.pinnedSync 10 900 f = xRevoked := by
     intro f
     have hpend : xRevoked.child.ca.hasPendingRequests xRevoked.ph = true := by decide
-    unfold Pair.sync
+    unfold Pair.pinnedSync Pair.syncWith
     simp only [hpend, if_true]
     decide
   intro fs
-  rw [syncs_of_fixed hfix fs]; decide
+  rw [pinnedSyncs_of_fixed hfix fs]; decide
+
+/-- On the current tree (fix 7be8c4c6) the same pair converges: the revocation request for the key
+the parent revoked itself is confirmed (no event, nothing changes at the parent), the child
+finishes its roll in the first sync, fetches the entitlements in the second – it is entitled to
+nothing – and drops the class; further syncs change nothing. -/
+theorem sync_converges_after_parent_side_revocation :
+    xRevoked.parent.exec (.childRevokeKey 7 0 20) = .stored [] xRevoked.parent ∧
+    ((xRevoked.sync 10 900 []).child.ca.classes.map fun q => q.2.keys.variant) = [.active] ∧
+    (xRevoked.syncs 10 900 [[], []]).converged 900 = true ∧
+    (xRevoked.syncs 10 900 [[], []]).child.ca.classes = [] ∧
+    xRevoked.syncs 10 900 [[], [], []] = xRevoked.syncs 10 900 [[], []] := by decide
 
 /-- (B) The child issued a certificate with a request limit `{1,2}` to a child of its own
 (key 50); then the parent reduces the child's entitlement to `{1}`. -/
@@ -797,67 +827,153 @@ def xLimit : Pair :=
   ⟨Sys.run {} (pConvOps ++ [.childUpdateResources 7 [1]]),
    Sys.run {} (cConvOps ++ [.childAdd 3 [1, 2], .childCertify 3 0 50 (some [1, 2]) 800]), 7, 9⟩
 
-/-- The first sync creates the request, every later sync sends it; the parent issues `{1}` each
-time, and each time the child refuses to store the certificate (`Error::limit`:
-`shrink_overclaiming` re-issues the grandchild's certificate with its old limit `{1,2}` on the
-reduced set `{1}`): from the second sync on the pair is a fixed point with the request still
-open.  What `noRequestLimits` excludes. -/
-theorem sync_stuck_with_request_limit :
+/-- (B) was an error of the MODEL (replayed: corpus/system-findings-limit/c02-b-limit-grandchild-shrink.ops):
+the child does refuse to store the smaller certificate (`Error::limit`: `shrink_overclaiming`
+re-issues the grandchild's certificate with its old limit `{1,2}` on the reduced set `{1}`), but
+`handle_cert_response` answers a refused `UpdateRcvdCert` with `DropResourceClass`
+(`Sys.receiveOrDrop`): the second sync leaves the child without the class and without anything
+to send, the third fetches the entitlements (a new class, key 21), the fourth gets the
+certificate for `{1}`: converged, and a fixed point.  `noRequestLimits` stays a hypothesis of the
+GENERAL theorems (their proof follows every class through `KeyState.syncStep`; the detour
+"class dropped and created again under a new name" is outside that simulation), this instance
+shows the exchange converges without it. -/
+theorem sync_converges_with_request_limit :
     Reachable xLimit.parent ∧ Reachable xLimit.child ∧ xLimit.noRequestLimits = false ∧
-    xLimit.childHasRepo = true ∧ xLimit.mappingInjective = true ∧ xLimit.classNamesDistinct = true ∧
-    xLimit.certsOnFile = true ∧ xLimit.noRollInProgress = true ∧
     (xLimit.sync 10 900 []).child.exec (.updateRcvdCert 0 20 { res := [1], na := 900 } 900 []) =
       .refused (.issue .limit) ∧
-    ∀ fs, (xLimit.syncs 10 900 ([] :: [] :: fs)).converged 900 = false := by
+    (xLimit.syncs 10 900 [[], []]).child.ca.classes = [] ∧
+    (xLimit.syncs 10 900 [[], [], [21], []]).converged 900 = true ∧
+    ((xLimit.syncs 10 900 [[], [], [21], []]).child.ca.classes.map fun q => (q.1, q.2.keys.keyIds)) = [(1, [21])] ∧
+    xLimit.syncs 10 900 [[], [], [21], [], []] = xLimit.syncs 10 900 [[], [], [21], []] := by
   refine ⟨reachable_run .init _, reachable_run .init _, by decide, by decide, by decide, by decide, by decide,
-    by decide, by decide, ?_⟩
-  have hfix : ∀ f, (xLimit.syncs 10 900 [[], []]).sync 10 900 f = xLimit.syncs 10 900 [[], []] := by
-    intro f
-    have hpend : (xLimit.syncs 10 900 [[], []]).child.ca.hasPendingRequests (xLimit.syncs 10 900 [[], []]).ph = true := by
-      decide
-    unfold Pair.sync
-    simp only [hpend, if_true]
-    decide
-  intro fs
-  have hsplit : xLimit.syncs 10 900 ([] :: [] :: fs) = (xLimit.syncs 10 900 [[], []]).syncs 10 900 fs := rfl
-  rw [hsplit, syncs_of_fixed hfix fs]; decide
+    by decide⟩
 
-/-- (A) The parent presents its two classes 0 and 1 to the child under the same name 5. -/
-def xSameName : Pair := ⟨xTwoParent.run [.childMapping 7 0 5, .childMapping 7 1 5], xChild, 7, 9⟩
+/-- (A) The parent presents its two classes 0 and 1 to the child under the same name 5 – on the
+pinned tree, whose `process` accepted the second mapping. -/
+def xSameName : Pair := ⟨xTwoParent.pinnedRun [.childMapping 7 0 5, .childMapping 7 1 5], xChild, 7, 9⟩
 
-/-- `list` returns two classes named 5 (`{5}` and `{1}`); the child creates two classes named 5,
-both are certified by the one parent class that `parent_name_for_rcn 5` yields, and
-`find_parent_rc` then matches the first of them against both entitlements: from the third sync
-on the pair alternates between two states (request, certificate) and is converged in neither.
-What `mappingInjective` excludes. -/
-theorem sync_alternates_with_non_injective_mapping :
-    Reachable xSameName.parent ∧ Reachable xSameName.child ∧ xSameName.mappingInjective = false ∧
+/-- Counter-model of the PINNED tree (before fix 02d8de59; F-C02-3, the validation that F-C03-2
+missed as well).  `list` returned two classes named 5 (`{5}` and `{1}`); the child created two
+classes named 5, both were certified by the one parent class that `parent_name_for_rcn 5` yields,
+and `find_parent_rc` then matched the first of them against both entitlements: from the third
+sync on the pair alternated between two states (request, certificate) and was converged in
+neither.  (The real code, with `HashMap`s, shows the same two classes and the same endless
+re-issue, and in addition asks the parent to revoke the sibling class's key:
+corpus/system/c02-two-classes-one-child-name.ops for the fixed behaviour.) -/
+theorem pinned_sync_alternates_with_non_injective_mapping :
+    xSameName.mappingInjective = false ∧
     xSameName.childHasRepo = true ∧ xSameName.noRequestLimits = true ∧ xSameName.classNamesDistinct = true ∧
     xSameName.certsOnFile = true ∧ xSameName.noRollInProgress = true ∧
     (xSameName.parent.ca.entitlementsFor 7 900).map (·.rcn) = [5, 5] ∧
-    (let z := xSameName.syncs 10 900 [[20, 21], []]
-     (z.sync 10 900 []).sync 10 900 [] = z ∧ z.sync 10 900 [] ≠ z ∧
-     z.converged 900 = false ∧ (z.sync 10 900 []).converged 900 = false ∧
-     ∀ n, (z.syncs 10 900 (List.replicate n [])).converged 900 = false) := by
-  refine ⟨reachable_run (reachable_run .init _) _, reachable_run .init _, by decide, by decide, by decide,
-    by decide, by decide, by decide, by decide, ?_⟩
-  have h2 : ((xSameName.syncs 10 900 [[20, 21], []]).sync 10 900 []).sync 10 900 [] =
-      xSameName.syncs 10 900 [[20, 21], []] := by decide
+    (let z := xSameName.pinnedSyncs 10 900 [[20, 21], []]
+     (z.pinnedSync 10 900 []).pinnedSync 10 900 [] = z ∧ z.pinnedSync 10 900 [] ≠ z ∧
+     z.converged 900 = false ∧ (z.pinnedSync 10 900 []).converged 900 = false ∧
+     ∀ n, (z.pinnedSyncs 10 900 (List.replicate n [])).converged 900 = false) := by
+  refine ⟨by decide, by decide, by decide, by decide, by decide, by decide, by decide, ?_⟩
+  have h2 : ((xSameName.pinnedSyncs 10 900 [[20, 21], []]).pinnedSync 10 900 []).pinnedSync 10 900 [] =
+      xSameName.pinnedSyncs 10 900 [[20, 21], []] := by decide
   refine ⟨h2, by decide, by decide, by decide, ?_⟩
-  have hcyc : ∀ n, ∀ w, (w = xSameName.syncs 10 900 [[20, 21], []] ∨
-        w = (xSameName.syncs 10 900 [[20, 21], []]).sync 10 900 []) →
-      (w.syncs 10 900 (List.replicate n [])).converged 900 = false := by
+  have hcyc : ∀ n, ∀ w, (w = xSameName.pinnedSyncs 10 900 [[20, 21], []] ∨
+        w = (xSameName.pinnedSyncs 10 900 [[20, 21], []]).pinnedSync 10 900 []) →
+      (w.pinnedSyncs 10 900 (List.replicate n [])).converged 900 = false := by
     intro n
     induction n with
     | zero => intro w hw; rcases hw with rfl | rfl <;> decide
     | succ n ih =>
       intro w hw
-      simp only [List.replicate_succ, Pair.syncs]
+      simp only [List.replicate_succ, Pair.pinnedSyncs]
       apply ih
       rcases hw with rfl | rfl
       · exact Or.inr rfl
       · exact Or.inl h2
   exact fun n => hcyc n _ (Or.inl rfl)
+
+/-- On the current tree (fix 02d8de59) the second mapping is refused, the names stay distinct and
+the pair converges in two syncs with one class per parent class. -/
+theorem second_mapping_to_same_name_refused :
+    (xTwoParent.next (.childMapping 7 0 5)).exec (.childMapping 7 1 5) = .refused .childNameClash ∧
+    (let x : Pair := ⟨xTwoParent.run [.childMapping 7 0 5, .childMapping 7 1 5], xChild, 7, 9⟩
+     x.mappingInjective = true ∧ (x.parent.ca.entitlementsFor 7 900).map (·.rcn) = [1, 5] ∧
+     (x.syncs 10 900 [[20, 21], []]).converged 900 = true ∧
+     x.syncs 10 900 [[20, 21], [], []] = x.syncs 10 900 [[20, 21], []]) := by decide
+
+/-- An accepted class-name mapping keeps the names the child sees translating back
+(`mappingInjective`), for every state of the parent – this is what fix 02d8de59 establishes. -/
+theorem mapping_keeps_names_distinct (s : Sys) (ch : Handle) (n m : Rcn) (evs : List Ev) (s' : Sys)
+    (hok : s.ca.namesOk ch = true) (hex : s.exec (.childMapping ch n m) = .stored evs s') :
+    s'.ca.namesOk ch = true :=
+  mapping_keeps_namesOk hok hex
+
+/-- Non-vacuity: an accepted mapping on a parent whose names are distinct (this is `xMapped`). -/
+example : xParent.ca.namesOk 7 = true ∧
+    (match xParent.exec (.childMapping 7 0 5) with | .stored _ _ => true | _ => false) = true := by decide
+
+/-- What the fix cannot establish at the time of the mapping (`mappingInjective` therefore stays a
+hypothesis of the general theorems): a mapping onto a name that no class has YET is accepted;
+when the parent later gets a class of that name (class names are the counter `next_class_name`)
+two classes appear to the child under one name.  Residual of F-C02-3 / F-C03-2, open. -/
+theorem names_clash_when_class_is_added_after_mapping :
+    let p := Sys.run {} [ .repoUpdate [], .addParent 98, .addParent 99,
+      .updateEntitlements 98 [⟨0, [1, 2], 1000, []⟩] 0 [4],
+      .updateRcvdCert 0 4 { res := [1, 2], na := 1000 } 500 [],
+      .childAdd 7 [1], .childMapping 7 0 1,
+      .updateEntitlements 99 [⟨0, [5, 6], 1000, []⟩] 0 [5],
+      .updateRcvdCert 1 5 { res := [5, 6], na := 1000 } 500 [],
+      .childUpdateResources 7 [1, 5] ]
+    Reachable p ∧ p.ca.namesOk 7 = false ∧ (p.ca.entitlementsFor 7 900).map (·.rcn) = [1, 1] := by
+  refine ⟨reachable_run .init _, by decide, by decide⟩
+
+/-- (H) The child has a certificate request open for its class 0 (its entitlement shrank to `{1}`
+and it fetched the entitlements); before it sends the request the parent loses class 0 (its own
+parent no longer lists it). -/
+def xLost : Pair :=
+  { xShrunk.sync 10 900 [] with
+    parent := (xShrunk.sync 10 900 []).parent.next (.updateEntitlements 99 [] 0 []) }
+
+/-- … and the parent gets the resources back – as its class 1. -/
+def xLostRegained : Pair :=
+  { xLost with parent := xLost.parent.run [
+      .updateEntitlements 99 [⟨0, [1, 2, 3, 4], 1000, []⟩] 0 [6],
+      .updateRcvdCert 1 6 { res := [1, 2, 3, 4], na := 1000 } 500 [] ] }
+
+/-- The parent refuses the request (`ResourceClassUnknown`) – a krill parent answers with an
+error, never with an RFC 6492 1201 response, so the child's "class is gone: drop it" branch is
+not reached: the request stays open, every sync sends it again, the entitlements are never
+fetched.  A fixed point that is not converged – even when the parent later holds the resources
+again under a new class name.  What `pendingAnswerable` excludes.  Replayed on the real code:
+corpus/system-findings/c02-h-request-for-lost-class.ops (finding F-C02-4, open). -/
+theorem sync_stuck_with_request_for_lost_class :
+    Reachable xLost.parent ∧ Reachable xLost.child ∧ xLost.pendingAnswerable = false ∧
+    xLost.coupled = true ∧ xLost.noRollInProgress = true ∧ xLost.coupledRoll = true ∧
+    xLost.parent.exec (.childCertify 7 0 20 none 900) = .refused .unknownClass ∧
+    xLost.parent.ca.entitlementsFor 7 900 = [] ∧
+    (∀ fs, (xLost.syncs 10 900 fs).converged 900 = false) ∧
+    (xLostRegained.parent.ca.entitlementsFor 7 900).map (fun e => (e.rcn, e.res)) = [(1, [1])] ∧
+    ∀ fs, (xLostRegained.syncs 10 900 fs).converged 900 = false := by
+  have hshrP : Reachable xShrunk.parent :=
+    (Reachable.step (.childUpdateResources 7 [1]) xConv_coupled.inv.rp : Reachable (xConv.parent.next _))
+  have hy : Coupled (xShrunk.sync 10 900 []) :=
+    sync_coupled (coupled_of_bool hshrP xConv_coupled.inv.rc (by decide) (by decide)) 10 900 [] (fun _ => by decide)
+      (fun h => absurd h (by decide))
+  have hP : Reachable xLost.parent :=
+    (Reachable.step (.updateEntitlements 99 [] 0 []) hy.inv.rp : Reachable ((xShrunk.sync 10 900 []).parent.next _))
+  refine ⟨hP, hy.inv.rc, by decide, by decide, by decide, by decide, by decide, by decide, ?_, by decide, ?_⟩
+  · have hfix : ∀ f, xLost.sync 10 900 f = xLost := by
+      intro f
+      have hpend : xLost.child.ca.hasPendingRequests xLost.ph = true := by decide
+      unfold Pair.sync
+      simp only [hpend, if_true]
+      decide
+    intro fs
+    rw [syncs_of_fixed hfix fs]; decide
+  · have hfix : ∀ f, xLostRegained.sync 10 900 f = xLostRegained := by
+      intro f
+      have hpend : xLostRegained.child.ca.hasPendingRequests xLostRegained.ph = true := by decide
+      unfold Pair.sync
+      simp only [hpend, if_true]
+      decide
+    intro fs
+    rw [syncs_of_fixed hfix fs]; decide
 
 /-- (G) Between two syncs of the child the parent's own certificate shrinks to `{1,3,4}`
 (`shrink_overclaiming` re-issues the child's certificate with `{1}`) and grows back. -/
